@@ -23,9 +23,10 @@ def fold(members, entries):
 class MembershipMonitor(Monitor):
     """ghost: (next request number is shared with submissions: w.nsub)"""
 
-    def __init__(self, via=('api', 'admin'), targets=None):
+    def __init__(self, via=('api', 'admin'), targets=None, add_existing=False):
         self.via = via
         self.targets = targets
+        self.add_existing = add_existing     # also request the addition of nodes that are members already
 
     def init_ghost(self, model):
         return ()
@@ -46,7 +47,7 @@ class MembershipMonitor(Monitor):
                     for via in self.via:
                         if x != s.nid:
                             evs.append(('M', s.nid, 'rem', x, via))
-                        if x not in s.others and x != s.nid:
+                        if (x not in s.others or self.add_existing) and x != s.nid:
                             evs.append(('M', s.nid, 'add', x, via))
         # spawn an added node: empty, with the member list of a node that already lists it
         for s in sums:
